@@ -138,7 +138,10 @@ def run(tier, seed, replay=None):
 
     n_struct, n_sem, maxlen, speclen, shards = (700, 160, 5, 3, 3) if tier == "quick" else (6000, 1500, 6, 4, 6)
     jobs = []
+    # a mutated unroller may try to build 2^32 clones for the u32::MAX counts of the generator: bound memory and time of every harness process
+    guard = "ulimit -v 6000000; timeout %d " % (150 if tier == "quick" else 1500)
     for label, hbin in builds.items():
+        hbin = guard + hbin
         jobs.append((label, "%s witness | %s %s" % (hbin, runner, flags[label])))
         for i in range(shards):
             jobs.append((label, "%s struct %d %d | %s %s --spec %d" % (hbin, n_struct, seed * 100 + i, runner, flags[label], speclen)))
